@@ -612,7 +612,8 @@ class Visitor(ast.NodeVisitor):
         result = None  # type: Optional[Any]
         saw_placeholder = False
 
-        for value_node in node.values:
+        last_i = len(node.values) - 1
+        for i, value_node in enumerate(node.values):
             value = self.visit(value_node)
 
             # Please see "NOTE ABOUT PLACEHOLDERS AND RE-COMPUTATION"
@@ -630,6 +631,11 @@ class Visitor(ast.NodeVisitor):
                 continue
 
             result = value
+
+            # Python does not test the truth value of the last operand (it is simply the result), and neither must we:
+            # the test can fail, *e.g.*, for arrays whose truth value is ambiguous.
+            if i == last_i:
+                break
 
             if is_and and not value:
                 break
